@@ -7,6 +7,7 @@ import Driver.Validators
 import Driver.Aead
 import Driver.Config
 import Driver.Proxyflow
+import Driver.Forward
 open Lean Sso.Drv
 
 /-! `ssoverif <trace.jsonl>`: one verdict line per case, then a summary line. -/
@@ -21,6 +22,7 @@ def dispatch (e : String) (j : Json) : Except String Verdict :=
   | "aead" => Sso.Drv.Aead.checkCase j
   | "config" => Sso.Drv.Config.checkCase j
   | "proxyflow" => Sso.Drv.Proxyflow.checkCase j
+  | "forward" => Sso.Drv.Forward.checkCase j
   | _ => throw s!"unknown engine {e}"
 
 partial def loop (h : IO.FS.Stream) (out : IO.FS.Stream) (n bad : Nat) : IO (Nat × Nat) := do
